@@ -29,6 +29,7 @@ FILES = ["NodeStateOps.tla", "FdOps.tla", "Gossip.tla", "MC_Gossip.tla", "TraceG
 # formulas that constitute each property (inv = state invariants, props = action properties);
 # "nogc" formulas are part of the property only on executions without tombstone GC (C13, see DESIGN)
 FORMULAS = {
+    "C01": {"inv": [], "props": ["C01_ConvergedReal", "C01_ProgressObs"]},
     "C02": {"inv": ["C02_NoResurrection"], "props": []},
     "C03": {"inv": ["C03_Integrity"], "props": []},
     "C04": {"inv": ["C04_NoPanic"], "props": ["C04_Monotonic", "C04_FreshVersion"]},
@@ -45,7 +46,7 @@ ALL_INV = ["C02_NoResurrection", "C03_Integrity", "C04_NoPanic", "C05_OwnerAhead
 MODEL_ONLY_INV = ["NoStaleTombstones"]
 ALL_PROPS = ["C04_Monotonic", "C04_FreshVersion", "C05_OwnUntouched", "C20_Callback",
              "C07_Structure", "C12_Partition", "C12_Quarantine", "C12_Removal", "C12_NoRevival",
-             "C13_Publish", "C13_OnlyEval", "C16_Reject", "C18_Catchup", "C18_NoPanic"]
+             "C13_Publish", "C13_OnlyEval", "C16_Reject", "C18_Catchup", "C18_NoPanic", "C01_ConvergedReal"]
 
 BASE = {
     "Node": vlib.tla_set(["n1", "n2"]), "Writers": vlib.tla_set(["n1"]),
@@ -53,19 +54,22 @@ BASE = {
     "Cluster": ("<-", "MC_Cluster"), "Grace": 2, "Advances": "{2}", "Budget": 99,
     "MaxVer": 3, "MaxInflight": 1, "MaxClock": 2, "MaxHb": 0, "TrackHb": "FALSE",
     "PhiN": 8, "PhiD": 1, "Window": 3, "MaxInterval": 10, "Prior": 5, "DeadGrace": 100,
-    "PredKey": '""', "PredVal": '""', "Enable": vlib.tla_set(["api", "gc", "lose", "dup"]),
+    "PredKey": '""', "PredVal": '""', "ConvRounds": 3, "Enable": vlib.tla_set(["api", "gc", "lose", "dup"]),
 }
 FD_TINY = {"PhiN": 1, "PhiD": 1, "Window": 1, "MaxInterval": 2, "Prior": 1, "DeadGrace": 4}
 FD_TINY_H = {"phi": 1.0, "window": 1, "max_interval": 2, "initial": 1, "dead_grace": 4}
 
 # exhaustive model configs: name -> (constants override, harness cfg, nogc?)
 MODEL_CFGS = {
-    "two": (dict(), {"nodes": ["n1", "n2"], "grace": 2, "strip_hb": True}, False),
+    "two": (dict(), {"nodes": ["n1", "n2"], "grace": 2, "strip_hb": True}, False, ["C01_Progress", "C01_Converges"]),
+    # size truncation: one entry with a value per delta (Budget = 1 unit; values realised as ~50 KB strings)
+    "two_mtu": (dict(Budget=1), {"nodes": ["n1", "n2"], "grace": 2, "strip_hb": True, "val_size": 50000}, False,
+                ["C01_Progress", "C01_Converges"]),
     "two_ttl": (dict(Val=vlib.tla_set(["a"]), Enable=vlib.tla_set(["api", "ttl", "gc", "lose", "dup"])),
                 {"nodes": ["n1", "n2"], "grace": 2, "strip_hb": True}, False),
     "three": (dict(Node=vlib.tla_set(["n1", "n2", "n3"]), Val=vlib.tla_set(["a"]),
                    Enable=vlib.tla_set(["api", "gc", "lose"])),
-              {"nodes": ["n1", "n2", "n3"], "grace": 2, "strip_hb": True}, False),
+              {"nodes": ["n1", "n2", "n3"], "grace": 2, "strip_hb": True}, False, ["C01_Progress", "C01_Converges"]),
     # membership: concrete detector with tiny parameters, predicate on k1 = a, no tombstone GC
     "member": (dict(FD_TINY, Key=vlib.tla_set(["k1"]), Val=vlib.tla_set(["a"]), MaxVer=1,
                     Advances="{1, 2}", MaxClock=5, MaxHb=3, TrackHb="TRUE",
@@ -85,8 +89,8 @@ MODEL_CFGS = {
     "catchup": (dict(Val=vlib.tla_set(["a"]), MaxVer=2, Enable=vlib.tla_set(["api", "gc", "catchup"])),
                 {"nodes": ["n1", "n2"], "grace": 2, "strip_hb": True}, False),
 }
-TIER_MODELS = {"quick": ["two", "member", "clusters", "catchup"],
-               "thorough": ["two", "two_ttl", "three", "member_l", "clusters", "catchup"]}
+TIER_MODELS = {"quick": ["two", "two_mtu", "member", "clusters", "catchup"],
+               "thorough": ["two", "two_mtu", "two_ttl", "three", "member_l", "clusters", "catchup"]}
 
 FD_SMALL = {"phi": 2.0, "window": 3, "max_interval": 4, "initial": 2, "dead_grace": 6}
 FD_CONST = {"PhiN": 2, "PhiD": 1, "Window": 3, "MaxInterval": 4, "Prior": 2, "DeadGrace": 6}
@@ -105,10 +109,10 @@ def scenarios(tier, seed):
     return [
         ("s3", {"nodes": ["n1", "n2", "n3"], "grace": 3, "keys": ["k1", "k2", "k3"],
                 "advances": [1, 2, 3, 4], "seed": seed * 1000 + 1, "traces": 100 * k,
-                "len": 100, "w_sync": 10}, {"Grace": 3}, False),
+                "len": 100, "w_sync": 10, "fair_rounds": 3}, {"Grace": 3}, False),
         ("s4fd", {"nodes": ["n1", "n2", "n3", "n4"], "grace": 3, "fd": FD_SMALL,
                   "keys": ["k1", "k2", "k3"], "advances": [1, 2, 3, 4], "seed": seed * 1000 + 2,
-                  "traces": 100 * k, "len": 120, "w_live": 15, "w_hb": 5},
+                  "traces": 100 * k, "len": 120, "w_live": 15, "w_hb": 5, "fair_rounds": 4},
          dict(FD_CONST, Grace=3), False),
         ("s2w", {"nodes": ["n1", "n2"], "writers": ["n1"], "grace": 2, "keys": ["k1", "k2"],
                  "advances": [1, 2, 3], "seed": seed * 1000 + 3, "traces": 100 * k,
@@ -116,7 +120,8 @@ def scenarios(tier, seed):
         # size truncation: every value is ~30 KB, two fit one datagram (Budget = 2 entry units)
         ("s3mtu", {"nodes": ["n1", "n2", "n3"], "grace": 3, "val_size": 30000,
                    "keys": ["k1", "k2", "k3", "k4"], "advances": [1, 2, 3, 4],
-                   "seed": seed * 1000 + 4, "traces": 80 * k, "len": 100, "nvals": 3, "w_sync": 10},
+                   "seed": seed * 1000 + 4, "traces": 80 * k, "len": 100, "nvals": 3, "w_sync": 10,
+                   "fair_rounds": 6},
          {"Grace": 3, "Budget": 2}, False),
         # truncation + failure detector + predicate (watch channel under resets)
         ("s3mtufd", {"nodes": ["n1", "n2", "n3"], "grace": 3, "val_size": 50000, "fd": FD_SMALL,
@@ -369,10 +374,11 @@ def family_run(tier, seed):
 
     # ---------------- spec -> code
     for name in TIER_MODELS[tier]:
-        over, hcfg, nogc = MODEL_CFGS[name]
+        over, hcfg, nogc = MODEL_CFGS[name][:3]
+        extra_inv = MODEL_CFGS[name][3] if len(MODEL_CFGS[name]) > 3 else []
         c = dict(BASE)
         c.update(over)
-        cfgp = vlib.write_cfg(tmp(f"model_{name}.cfg"), "Spec", c, invariants=ALL_INV + MODEL_ONLY_INV,
+        cfgp = vlib.write_cfg(tmp(f"model_{name}.cfg"), "Spec", c, invariants=ALL_INV + MODEL_ONLY_INV + extra_inv,
                               properties=ALL_PROPS + (["C13_Exact"] if nogc else []),
                               view="View", constraint="Bounded", action_constraint="EmitEdge")
         m = vlib.cached_model_run("gossip_" + name, "MC_Gossip.tla", cfgp, FILES[:4], workers=6,
@@ -422,27 +428,36 @@ def family_run(tier, seed):
                                              "steps": steps, "nogc": nogc,
                                              "note": f"replay of model {name} diverged"})
 
-    # ---------------- code -> spec
-    for sc in scenarios(tier, seed):
+    # ---------------- code -> spec (scenarios are independent: run them concurrently)
+    def one_scenario(sc):
         sname, dcfg, over, nogc = sc[:4]
         excluded = sc[4] if len(sc) > 4 else []
         tpath = tmp(f"drv_{sname}_{os.getpid()}.ndjson")
         run_harness(["drive", json.dumps(dcfg)], out_path=tpath)
         consts = trace_constants(over)
         total, nev, acc, rej = validate_batch(tpath, consts, f"{sname}_{os.getpid()}", nogc, excluded)
-        fam["conform"] += acc
-        fam["drivers"][sname] = {"traces": total, "events": nev, "accepted": acc, "rejected": len(rej)}
+        div = []
         for (lines, at, errs) in rej:
-            fam["divergent"].append({"lines": lines, "over": jsonable(over), "hcfg": hcfg_of(dcfg),
-                                     "steps": steps_of_events(lines), "nogc": nogc, "excluded": excluded,
-                                     "note": f"driver {sname}: trace rejected at event {at}: {errs[:200]}"})
+            div.append({"lines": lines, "over": jsonable(over), "hcfg": hcfg_of(dcfg),
+                        "steps": steps_of_events(lines), "nogc": nogc, "excluded": excluded,
+                        "note": f"driver {sname}: trace rejected at event {at}: {errs[:200]}"})
         hits = coverage_hits(tpath)
+        with open(tpath) as fh:
+            sample = [json.loads(x) for x in fh.readlines()[1:3]]
+        os.remove(tpath)
+        return sname, {"traces": total, "events": nev, "accepted": acc, "rejected": len(rej)}, div, hits, sample
+
+    from concurrent.futures import ThreadPoolExecutor
+    with ThreadPoolExecutor(max_workers=5) as ex:
+        results = list(ex.map(one_scenario, scenarios(tier, seed)))
+    for sname, stats, div, hits, sample in results:
+        fam["conform"] += stats["accepted"]
+        fam["drivers"][sname] = stats
+        fam["divergent"] += div
         for k, v in hits.items():
             fam["coverage_hits"][k] = fam["coverage_hits"].get(k, 0) + v
         if len(fam["samples"]) < 4:
-            with open(tpath) as fh:
-                fam["samples"].append([json.loads(x) for x in fh.readlines()[1:3]])
-        os.remove(tpath)
+            fam["samples"].append(sample)
     with open(cpath + ".part", "w") as fh:
         json.dump(fam, fh)
     os.replace(cpath + ".part", cpath)
@@ -486,6 +501,44 @@ def coverage_hits(tpath):
             if e.get("panic"):
                 inc("panics")
     return c
+
+
+KF2_STEPS = [{"a": "Set", "n": "n3", "k": "k1", "v": "xk1"}, {"a": "Set", "n": "n3", "k": "k2", "v": "xk2"}, {"a": "Set", "n": "n3", "k": "k3", "v": "xk3"}, {"a": "Set", "n": "n2", "k": "j1", "v": "yj1"}, {"a": "CreateSyn", "n": "n1", "to": "n2"}, {"a": "Process", "n": "n2", "m": 4}, {"a": "Process", "n": "n1", "m": 5}, {"a": "Process", "n": "n2", "m": 6}, {"a": "CreateSyn", "n": "n1", "to": "n3"}, {"a": "Process", "n": "n3", "m": 8}, {"a": "Process", "n": "n1", "m": 9}, {"a": "Process", "n": "n3", "m": 10}, {"a": "CreateSyn", "n": "n2", "to": "n3"}, {"a": "Process", "n": "n3", "m": 12}, {"a": "Process", "n": "n2", "m": 13}, {"a": "Process", "n": "n3", "m": 14}, {"a": "CreateSyn", "n": "n2", "to": "n1"}, {"a": "Process", "n": "n1", "m": 16}, {"a": "Process", "n": "n2", "m": 17}, {"a": "Process", "n": "n1", "m": 18}, {"a": "CreateSyn", "n": "n3", "to": "n1"}, {"a": "Process", "n": "n1", "m": 20}, {"a": "Process", "n": "n3", "m": 21}, {"a": "Process", "n": "n1", "m": 22}, {"a": "CreateSyn", "n": "n3", "to": "n2"}, {"a": "Process", "n": "n2", "m": 24}, {"a": "Process", "n": "n3", "m": 25}, {"a": "Process", "n": "n2", "m": 26}, {"a": "CreateSyn", "n": "n1", "to": "n2"}, {"a": "Process", "n": "n2", "m": 28}, {"a": "Process", "n": "n1", "m": 29}, {"a": "Process", "n": "n2", "m": 30}, {"a": "CreateSyn", "n": "n1", "to": "n3"}, {"a": "Process", "n": "n3", "m": 32}, {"a": "Process", "n": "n1", "m": 33}, {"a": "Process", "n": "n3", "m": 34}, {"a": "CreateSyn", "n": "n2", "to": "n3"}, {"a": "Process", "n": "n3", "m": 36}, {"a": "Process", "n": "n2", "m": 37}, {"a": "Process", "n": "n3", "m": 38}, {"a": "CreateSyn", "n": "n2", "to": "n1"}, {"a": "Process", "n": "n1", "m": 40}, {"a": "Process", "n": "n2", "m": 41}, {"a": "Process", "n": "n1", "m": 42}, {"a": "CreateSyn", "n": "n3", "to": "n1"}, {"a": "Process", "n": "n1", "m": 44}, {"a": "Process", "n": "n3", "m": 45}, {"a": "Process", "n": "n1", "m": 46}, {"a": "CreateSyn", "n": "n3", "to": "n2"}, {"a": "Process", "n": "n2", "m": 48}, {"a": "Process", "n": "n3", "m": 49}, {"a": "Process", "n": "n2", "m": 50}, {"a": "CreateSyn", "n": "n1", "to": "n2"}, {"a": "Process", "n": "n2", "m": 52}, {"a": "Process", "n": "n1", "m": 53}, {"a": "Process", "n": "n2", "m": 54}, {"a": "CreateSyn", "n": "n1", "to": "n3"}, {"a": "Process", "n": "n3", "m": 56}, {"a": "Process", "n": "n1", "m": 57}, {"a": "Process", "n": "n3", "m": 58}, {"a": "CreateSyn", "n": "n2", "to": "n3"}, {"a": "Process", "n": "n3", "m": 60}, {"a": "Process", "n": "n2", "m": 61}, {"a": "Process", "n": "n3", "m": 62}, {"a": "CreateSyn", "n": "n2", "to": "n1"}, {"a": "Process", "n": "n1", "m": 64}, {"a": "Process", "n": "n2", "m": 65}, {"a": "Process", "n": "n1", "m": 66}, {"a": "CreateSyn", "n": "n3", "to": "n1"}, {"a": "Process", "n": "n1", "m": 68}, {"a": "Process", "n": "n3", "m": 69}, {"a": "Process", "n": "n1", "m": 70}, {"a": "CreateSyn", "n": "n3", "to": "n2"}, {"a": "Process", "n": "n2", "m": 72}, {"a": "Process", "n": "n3", "m": 73}, {"a": "Process", "n": "n2", "m": 74}, {"a": "Advance", "d": 1}, {"a": "CreateSyn", "n": "n1", "to": "n2"}, {"a": "Process", "n": "n2", "m": 77}, {"a": "Process", "n": "n1", "m": 78}, {"a": "Process", "n": "n2", "m": 79}, {"a": "CreateSyn", "n": "n2", "to": "n1"}, {"a": "Process", "n": "n1", "m": 81}, {"a": "Process", "n": "n2", "m": 82}, {"a": "Process", "n": "n1", "m": 83}, {"a": "Advance", "d": 1}, {"a": "CreateSyn", "n": "n1", "to": "n2"}, {"a": "Process", "n": "n2", "m": 86}, {"a": "Process", "n": "n1", "m": 87}, {"a": "Process", "n": "n2", "m": 88}, {"a": "CreateSyn", "n": "n2", "to": "n1"}, {"a": "Process", "n": "n1", "m": 90}, {"a": "Process", "n": "n2", "m": 91}, {"a": "Process", "n": "n1", "m": 92}, {"a": "Advance", "d": 1}, {"a": "CreateSyn", "n": "n1", "to": "n2"}, {"a": "Process", "n": "n2", "m": 95}, {"a": "Process", "n": "n1", "m": 96}, {"a": "Process", "n": "n2", "m": 97}, {"a": "CreateSyn", "n": "n2", "to": "n1"}, {"a": "Process", "n": "n1", "m": 99}, {"a": "Process", "n": "n2", "m": 100}, {"a": "Process", "n": "n1", "m": 101}, {"a": "Liveness", "n": "n1"}, {"a": "Advance", "d": 4}, {"a": "CreateSyn", "n": "n1", "to": "n2"}, {"a": "Process", "n": "n2", "m": 105}, {"a": "Process", "n": "n1", "m": 106}, {"a": "Process", "n": "n2", "m": 107}, {"a": "CreateSyn", "n": "n2", "to": "n1"}, {"a": "Process", "n": "n1", "m": 109}, {"a": "Process", "n": "n2", "m": 110}, {"a": "Process", "n": "n1", "m": 111}, {"a": "Liveness", "n": "n2"}, {"a": "Liveness", "n": "n1"}, {"a": "Set", "n": "n2", "k": "j2", "v": "yj2"}, {"a": "CreateSyn", "n": "n1", "to": "n2"}, {"a": "Process", "n": "n2", "m": 116}, {"a": "Process", "n": "n1", "m": 117}, {"a": "Process", "n": "n2", "m": 118}]
+KF2_HCFG = {"nodes": ["n1", "n2", "n3"], "grace": 1000, "val_size": 30000,
+            "fd": {"phi": 2.0, "window": 3, "max_interval": 10, "initial": 1, "dead_grace": 6}}
+KF2_CONST = {"Grace": 1000, "Budget": 2, "PhiN": 2, "PhiD": 1, "Window": 3, "MaxInterval": 10, "Prior": 1, "DeadGrace": 6}
+
+
+def kf2_witness(res):
+    """Replays the KF-2 history (budget hogging by a member the receiver has scheduled for deletion)
+    on the real code: KNOWN-FINDING iff the strict progress formula fails and the exempted one holds."""
+    kf = [f for f in vlib.load_known_findings() if f.get("id") == "KF-2" and f.get("status") == "open"]
+    if not kf:
+        return
+    steps = [dict(s) for s in KF2_STEPS]
+    tpath = tmp("kf2.ndjson")
+    run_harness(["trace", json.dumps(KF2_HCFG)], stdin_text=json.dumps({"steps": steps}) + "\n", out_path=tpath)
+    lines = split_traces(tpath)[0]
+    # flag the final handshake (last four events) as a complete handshake n1 -> n2
+    evs = [json.loads(x) for x in lines]
+    for k, e in enumerate(evs[-4:], start=1):
+        e["hs"] = {"k": k, "a": "n1", "b": "n2"}
+    lines = [json.dumps(e) + "\n" for e in evs]
+    consts = trace_constants(KF2_CONST)
+    strict = observe([lines], consts, [], ["C01_ProgressObsStrict"], "kf2s")
+    exempt = observe([lines], consts, [], ["C01_ProgressObs"], "kf2e")
+    if strict and not exempt:
+        res.known.append("KF-2 a complete handshake makes no progress although the peer holds newer deliverable "
+                         "data: the reply budget is spent on a dead member that the receiver omitted from its digest "
+                         "because it has it scheduled for deletion (the sender treats it as never seen, which has "
+                         "priority): still reproduces")
+        res.coverage_extra["kf2_witness"] = {"strict_formula_fails": True, "exempted_formula_holds": True}
+    elif exempt:
+        res.violation({"kind": "gossip-trace", "hcfg": KF2_HCFG, "steps": steps, "formula": exempt[0][1],
+                       "consts": jsonable(KF2_CONST), "nogc": False},
+                      "KF-2 witness violates C01 outside the known-finding signature")
+    else:
+        res.coverage_extra["kf2_witness"] = {"reproduces": False}
 
 
 KF1_STEPS = [
@@ -582,6 +635,9 @@ def run(prop, tier, seed, replay=None):
                 dcfg = dict(hcfg, keys=["k1", "k2", "k3"], advances=[1, 2, 3], seed=seed * 77 + gi,
                             traces=k, len=50, prefix_file=pfile, w_sync=30, nvals=2,
                             w_live=(10 if "fd" in hcfg else 0))
+                if prop == "C01":
+                    # convergence is judged on a fair phase: short random continuation, then fair rounds
+                    dcfg.update(len=8, fair_rounds=4, fair_gc=0)
                 apath = tmp(f"amp_{prop}_{gi}.ndjson")
                 run_harness(["drive", json.dumps(dcfg)], out_path=apath)
                 atr = split_traces(apath)
@@ -596,6 +652,8 @@ def run(prop, tier, seed, replay=None):
 
     if prop == "C02":
         kf1_witness(res)
+    if prop == "C01":
+        kf2_witness(res)
     pair_cov = {}
     if prop in ("C04", "C20", "C07"):
         from checks import agreement
